@@ -31,7 +31,7 @@ for name in sorted(os.listdir(os.path.join(VERIF, "seeded"))):
         if not os.path.exists(os.path.join(VERIF, "rules", prop.lower() + ".py")):
             out.append("%s:NO-CHECK" % prop)
             continue
-        r = subprocess.run([os.path.join(VERIF, "check", ), prop], env=dict(os.environ, RACTOR_REPO=d), stdout=subprocess.PIPE, stderr=subprocess.STDOUT, text=True)
+        r = subprocess.run([os.path.join(VERIF, "check", ), prop], env=dict(os.environ, RACTOR_REPO=d, VERIF_EVIDENCE_DIR=os.path.join(VERIF, ".cache", "scratch-evidence")), stdout=subprocess.PIPE, stderr=subprocess.STDOUT, text=True)
         rules = sorted(set(re.findall(r"^   rule=(\S+)", r.stdout, re.M)))
         if "build-failure" in r.stdout:
             out.append("%s:BUILD-FAILURE" % prop)
